@@ -47,6 +47,10 @@ func (ctx *parseContext) expandImports(node Node, expansionDepth int) (Node, err
 			if expansionDepth > 255 {
 				return node, NodeErr(child, "hit import expansion limit")
 			}
+			*ctx.importBudget--
+			if *ctx.importBudget < 0 {
+				return node, NodeErr(child, "hit import expansion limit")
+			}
 
 			containsImports = true
 			if len(child.Args) != 1 {
@@ -97,7 +101,7 @@ func (ctx *parseContext) resolveImport(node Node, name string, expansionDepth in
 			return nil, err
 		}
 	}
-	nodes, snips, macros, err := readTree(src, file, expansionDepth+1)
+	nodes, snips, macros, err := readTree(src, file, expansionDepth+1, ctx.importBudget)
 	if err != nil {
 		return nodes, err
 	}
